@@ -143,6 +143,7 @@ func runAttempt(sc scen, post *postSink, dl deadlines) (*outcome, *attempt, erro
 	a.rec = rt.NewRecHandler("talk")
 	a.talk.next = a.rec
 	env.TM.TalkService = a.talk
+	env.TM.UDFService = udfService{}
 	a.hooks = hooksFor(a.id)
 	defer dropHooks(a.id)
 	defer a.hooks.releaseAll()
@@ -625,7 +626,12 @@ func (a *attempt) delivered() map[string][]int {
 		case "log", "loopback":
 			for _, it := range a.env.Diag.SinkItems(o.Name) {
 				if it.Point != nil {
-					s = append(s, toInt(it.Point.Fields()["seq"]))
+					f := it.Point.Fields()
+					if v, ok := f["seq"]; ok {
+						s = append(s, toInt(v))
+					} else if v, ok := f["a.seq"]; ok { // joined pair
+						s = append(s, toInt(v))
+					}
 				}
 			}
 		case "httppost":
